@@ -328,6 +328,12 @@ type boolAnalysis struct {
 	failures []string          // truth table / guard violations
 	checked  int               // rows checked
 	scen     int               // scenarios (paths x iteration paths)
+	// summary of the merge loop (own, or of a helper analysed on behalf of a caller)
+	iters       []*boolIter
+	loopOver    int
+	iterProblem bool
+	hasLoop     bool
+	returnsFlag bool // helper with a bool result: every return yields the loop's result flag
 }
 
 func (ba *boolAnalysis) problem(format string, a ...interface{}) {
@@ -777,6 +783,21 @@ func analyseBoolNodeWith(p *load.Program, fn *ssa.Function, list *ssa.Parameter,
 		}
 		walk(body, boolIter{facts: newBoolFacts(), final: map[int]boolRes{}}, map[*ssa.BasicBlock]bool{body: true})
 	}
+	ba.iters, ba.loopOver, ba.iterProblem, ba.hasLoop = iters, loopOver, iterProblem, loop != nil
+	// a helper that merges in place and reports whether anything is selected
+	if res := fn.Signature.Results(); res.Len() == 1 {
+		if b, isB := res.At(0).Type().Underlying().(*types.Basic); isB && b.Kind() == types.Bool {
+			ba.returnsFlag = flag != nil
+			for _, b := range fn.Blocks {
+				if ret, isRet := b.Instrs[len(b.Instrs)-1].(*ssa.Return); isRet {
+					if ret.Results[0] != ssa.Value(flag) {
+						ba.returnsFlag = false
+					}
+				}
+			}
+			return ba
+		}
+	}
 	// skeleton paths
 	paths, complete := enumPaths(fn, 400)
 	if !complete {
@@ -788,6 +809,7 @@ func analyseBoolNodeWith(p *load.Program, fn *ssa.Function, list *ssa.Parameter,
 			ba.fail("the method can panic explicitly")
 			continue
 		}
+		curIters, curLoopOver, curIterProblem := iters, loopOver, iterProblem
 		facts := init
 		flagFact := -1
 		feasible := true
@@ -820,6 +842,37 @@ func analyseBoolNodeWith(p *load.Program, fn *ssa.Function, list *ssa.Parameter,
 					flagFact = 1
 				}
 				continue
+			}
+			// the merge is delegated to a helper that works in place and returns the result flag
+			if inner, neg := unwrapNot(ec.cond); depth == 0 {
+				if call, isCall := inner.(*ssa.Call); isCall {
+					if sc := call.Call.StaticCallee(); sc != nil && p.InPkg(sc) && sc.Blocks != nil && sc.Signature.Results().Len() == 1 {
+						pre2 := map[ssa.Value]int{}
+						for i, a := range call.Call.Args {
+							if k, isOp := ba.operandOf(a); isOp && i < len(sc.Params) {
+								pre2[sc.Params[i]] = k
+							}
+						}
+						if len(pre2) > 0 {
+							sub := analyseBoolNodeWith(p, sc, nil, arity, op, pre2, facts, depth+1)
+							if sub.returnsFlag && sub.hasLoop {
+								for _, m := range sub.failures {
+									ba.fail("in %s: %s", load.FuncName(sc), m)
+								}
+								for _, m := range sub.problems {
+									ba.problem("in %s: %s", load.FuncName(sc), m)
+								}
+								curIters, curLoopOver, curIterProblem = sub.iters, sub.loopOver, sub.iterProblem
+								throughLoop = true
+								flagFact = 0
+								if ec.taken != neg {
+									flagFact = 1
+								}
+								continue
+							}
+						}
+					}
+				}
 			}
 			if k, neg, ok := ba.lenIsOne(ec.cond); ok {
 				one := ec.taken != neg
@@ -889,12 +942,12 @@ func analyseBoolNodeWith(p *load.Program, fn *ssa.Function, list *ssa.Parameter,
 			}
 			continue
 		}
-		if iterProblem {
+		if curIterProblem {
 			continue
 		}
 		// merge loop on the path: the lists indexed must be per-member lists
-		need := map[int]bool{loopOver: true}
-		for _, it := range iters {
+		need := map[int]bool{curLoopOver: true}
+		for _, it := range curIters {
 			for k := range it.final {
 				need[k] = true
 			}
@@ -915,7 +968,7 @@ func analyseBoolNodeWith(p *load.Program, fn *ssa.Function, list *ssa.Parameter,
 				ba.problem("a one-element list is returned after the merge loop on a path not guarded by the result flag")
 				continue
 			}
-			for _, it := range iters {
+			for _, it := range curIters {
 				if it.flagSet == 1 {
 					continue
 				}
@@ -935,7 +988,7 @@ func analyseBoolNodeWith(p *load.Program, fn *ssa.Function, list *ssa.Parameter,
 			ba.problem("returned value after the merge loop is not an operand's verdict list")
 			continue
 		}
-		for _, it := range iters {
+		for _, it := range curIters {
 			f := facts
 			f.elem = it.facts.elem
 			res, has := it.final[k]
